@@ -1,7 +1,6 @@
 (* Memfs/RefineHistory.v — C01 for whole histories: a reference filesystem that works on the flat tree alone (resolving its
    own path arguments against the tree's working directory) and the theorem that, from every well-formed kind-sound state,
-   ANY history of the calls it covers - mkfile, mkdir_p, mkdir_m, write_all, append_all, read_all, remove, remove_all (off
-   the root), symlink, set_cwd, chown without follow, exists / is_dir / is_file / is_symlink, cwd - gives, call by call,
+   ANY history of the calls it covers - mkfile, mkdir_p, mkdir_m, write_all, write_lines, append_all, append_line, append_lines, read_all, read_lines, remove, remove_all (off the root), symlink, readlink, readlink_abs, set_cwd, cwd, abs, chown without follow, exists / is_dir / is_file / is_symlink / is_symlink_dir / is_exec / is_readonly, mode / owner / uid / gid - gives, call by call,
    exactly the reference's value or error kind, and ends in exactly the reference's tree. *)
 From stdpp Require Import gmap.
 From Coq Require Import NArith.
@@ -18,6 +17,20 @@ Proof. reflexivity. Qed.
 Definition as_unit (r : unit + errkind) : result := match r with inl _ => inl VUnit | inr e => inr e end.
 Definition as_path (r : rpath + errkind) : result := match r with inl p => inl (VPath (render_rpath p)) | inr e => inr e end.
 
+Definition is_link_node (n : node) : bool := match n_kind n with KLink => true | _ => false end.
+
+(* a query answered from the node stored under the resolved path *)
+Definition node_query (env : envmap) (t : tree) (s : list N) (f : node → result) : result :=
+  match resolve_t env t s with
+  | inr e => inr e
+  | inl p => match t_nodes t !! p with Some n => f n | None => inr EDoesNotExist end
+  end.
+Definition node_bool (env : envmap) (t : tree) (s : list N) (f : node → bool) : result :=
+  match resolve_t env t s with
+  | inr _ => inl (VBool false)
+  | inl p => match t_nodes t !! p with Some n => inl (VBool (f n)) | None => inl (VBool false) end
+  end.
+
 (* the reference filesystem, one call; None = a call this reference does not cover *)
 Definition spec_step (env : envmap) (t : tree) (o : op) : option (tree * result) :=
   match o with
@@ -26,6 +39,43 @@ Definition spec_step (env : envmap) (t : tree) (o : op) : option (tree * result)
   | OIsDir s => Some (t, match resolve_t env t s with inr _ => inl (VBool false) | inl p => inl (VBool (spec_is_dir t p)) end)
   | OIsFile s => Some (t, match resolve_t env t s with inr _ => inl (VBool false) | inl p => inl (VBool (spec_is_file t p)) end)
   | OIsSymlink s => Some (t, match resolve_t env t s with inr _ => inl (VBool false) | inl p => inl (VBool (spec_is_symlink t p)) end)
+  | OAbs s => Some (t, match resolve_t env t s with inl p => inl (VPath (render_rpath p)) | inr e => inr e end)
+  | OIsSymlinkDir s => Some (t, node_bool env t s (fun n => is_link_node n && n_tdir n))
+  | OIsExec s => Some (t, node_bool env t s (fun n => is_exec_mode (n_mode n)))
+  | OIsReadonly s => Some (t, node_bool env t s (fun n => is_readonly_mode (n_mode n)))
+  | OMode s => Some (t, node_query env t s (fun n => inl (VNum (n_mode n))))
+  | OOwner s => Some (t, node_query env t s (fun n => inl (VPair (n_uid n) (n_gid n))))
+  | OUid s => Some (t, node_query env t s (fun n => inl (VNum (n_uid n))))
+  | OGid s => Some (t, node_query env t s (fun n => inl (VNum (n_gid n))))
+  | OReadlink s => Some (t, node_query env t s (fun n => if is_link_node n then inl (VPath (n_rel n)) else inr EIsNotSymlink))
+  | OReadlinkAbs s => Some (t, node_query env t s (fun n => if is_link_node n
+                                                            then inl (VPath (match n_target n with Some a => render_rpath a | None => [] end))
+                                                            else inr EIsNotSymlink))
+  | OReadLines s => Some (t, match (match resolve_t env t s with inr e => inr e | inl p => spec_read t p end) with
+                             | inl d => let ls := lines_of d in if forallb valid_utf8 ls then inl (VLines ls) else inr EInvalidData
+                             | inr e => inr e
+                             end)
+  | OWriteLines s ls => Some (match nl_join ls with
+                              | [] => (t, inl VUnit)
+                              | d => match resolve_t env t s with
+                                     | inr e => (t, inr e)
+                                     | inl p => let '(t', r) := spec_write_all t p def_mode_file def_uid def_gid (d ++ [10%N]) in (t', as_unit r)
+                                     end
+                              end)
+  | OAppendLine s l => Some (match l with
+                             | [] => (t, inl VUnit)
+                             | _ => match resolve_t env t s with
+                                    | inr e => (t, inr e)
+                                    | inl p => let '(t', r) := spec_append_all t p def_mode_file def_uid def_gid (l ++ [10%N]) in (t', as_unit r)
+                                    end
+                             end)
+  | OAppendLines s ls => Some (match nl_join ls with
+                               | [] => (t, inl VUnit)
+                               | d => match resolve_t env t s with
+                                      | inr e => (t, inr e)
+                                      | inl p => let '(t', r) := spec_append_all t p def_mode_file def_uid def_gid (d ++ [10%N]) in (t', as_unit r)
+                                      end
+                               end)
   | OMkfile s => Some (match resolve_t env t s with
                        | inr e => (t, inr e)
                        | inl p => let '(t', r) := spec_mkfile t p def_mode_file def_uid def_gid in (t', as_path r)
@@ -98,12 +148,45 @@ Proof.
   rewrite <- H. by destruct (m_ents m !! p).
 Qed.
 
+Lemma query_entry_node env m s (f : entry → result) (g : node → result) :
+  (∀ e d, f e = g (node_of e d)) → query_entry env m s f = node_query env (abs m) s g.
+Proof.
+  intros H. unfold query_entry, node_query. rewrite resolve_abs. destruct (resolve_t env (abs m) s) as [p|e]; [|done].
+  rewrite lookup_abs. destruct (m_ents m !! p); cbn; [apply H|done].
+Qed.
+Lemma query_bool_node env m s (f : entry → bool) (g : node → bool) :
+  (∀ e d, f e = g (node_of e d)) → query_bool env m s f = node_bool env (abs m) s g.
+Proof.
+  intros H. unfold query_bool, node_bool. rewrite resolve_abs. destruct (resolve_t env (abs m) s) as [p|e]; [|done].
+  rewrite lookup_abs. destruct (m_ents m !! p); cbn; [by rewrite (H _ (m_data m !! p))|done].
+Qed.
+
 (* one call *)
 Theorem step_refines env m o t' r' : WF m → kinds_ok m → spec_step env (abs m) o = Some (t', r') →
   ∃ m', step env m o = Done (m', r') ∧ abs m' = t'.
 Proof.
   intros HW HK Hs.
+  (* the three content writers, given their refinement *)
+  assert (Hwrite : ∀ s d, (match resolve_t env (abs m) s with
+                           | inr e => (abs m, inr e)
+                           | inl p => let '(t1, r) := spec_write_all (abs m) p def_mode_file def_uid def_gid d in (t1, as_unit r)
+                           end) = (t', r') → ∃ m', Done (lift_unit (write_all_op env m s d)) = Done (m', r') ∧ abs m' = t').
+  { intros s d H. rewrite <- resolve_abs in H. pose proof (write_all_refines env m s d) as Hr.
+    destruct (resolve env m s) as [p|e] eqn:E; [|simplify_eq; exists m; unfold write_all_op; by rewrite E].
+    specialize (Hr p HW HK eq_refl). destruct (write_all_op env m s d) as [m1 r1]. destruct Hr as [Ha Hr1].
+    destruct (spec_write_all (abs m) p _ _ _ d) as [t1 rr]. cbn [fst snd] in *. subst t1 rr. injection H as <- <-. exists m1. split; [|done]. by destruct r1. }
+  assert (Happend : ∀ s d, (match resolve_t env (abs m) s with
+                           | inr e => (abs m, inr e)
+                           | inl p => let '(t1, r) := spec_append_all (abs m) p def_mode_file def_uid def_gid d in (t1, as_unit r)
+                           end) = (t', r') → ∃ m', Done (lift_unit (append_all_op env m s d)) = Done (m', r') ∧ abs m' = t').
+  { intros s d H. rewrite <- resolve_abs in H. pose proof (append_all_refines env m s d) as Hr.
+    destruct (resolve env m s) as [p|e] eqn:E; [|simplify_eq; exists m; unfold append_all_op; by rewrite E].
+    specialize (Hr p HW HK eq_refl). destruct (append_all_op env m s d) as [m1 r1]. destruct Hr as [Ha Hr1].
+    destruct (spec_append_all (abs m) p _ _ _ d) as [t1 rr]. cbn [fst snd] in *. subst t1 rr. injection H as <- <-. exists m1. split; [|done]. by destruct r1. }
+  assert (Hread : ∀ s, clone_file env m s = match resolve_t env (abs m) s with inr e => inr e | inl p => spec_read (abs m) p end).
+  { intros s. rewrite <- resolve_abs. pose proof (read_refines env m s) as Hr. unfold clone_file in *. destruct (resolve env m s) as [p|e]; [|done]. by rewrite (Hr p HW HK eq_refl). }
   destruct o; cbn [spec_step] in Hs; try discriminate; cbn [step].
+  - (* abs *) injection Hs as <- <-. exists m. by rewrite resolve_abs.
   - (* exists *) injection Hs as <- <-. exists m. split; [|done]. f_equal. f_equal. rewrite resolve_abs.
     destruct (resolve_t env (abs m) s) as [p|e]; [|done]. by destruct (queries_refine m p HK) as (-> & _).
   - (* is_dir *) injection Hs as <- <-. exists m. split; [|done]. f_equal. f_equal.
@@ -112,6 +195,14 @@ Proof.
     apply (query_bool_spec env m s _ spec_is_file). intros p. destruct (queries_refine m p HK) as (_ & _ & H & _). exact H.
   - (* is_symlink *) injection Hs as <- <-. exists m. split; [|done]. f_equal. f_equal.
     apply (query_bool_spec env m s _ spec_is_symlink). intros p. destruct (queries_refine m p HK) as (_ & _ & _ & H). exact H.
+  - (* is_symlink_dir *) injection Hs as <- <-. exists m. split; [|done]. f_equal. f_equal. apply query_bool_node.
+    intros e d. unfold is_link_node, node_of, kind_of_entry. cbn. destruct (e_link e), (e_dir e); done.
+  - (* is_exec *) injection Hs as <- <-. exists m. split; [|done]. f_equal. f_equal. by apply query_bool_node.
+  - (* is_readonly *) injection Hs as <- <-. exists m. split; [|done]. f_equal. f_equal. by apply query_bool_node.
+  - (* mode *) injection Hs as <- <-. exists m. split; [|done]. f_equal. f_equal. by apply query_entry_node.
+  - (* owner *) injection Hs as <- <-. exists m. split; [|done]. f_equal. f_equal. by apply query_entry_node.
+  - (* uid *) injection Hs as <- <-. exists m. split; [|done]. f_equal. f_equal. by apply query_entry_node.
+  - (* gid *) injection Hs as <- <-. exists m. split; [|done]. f_equal. f_equal. by apply query_entry_node.
   - (* cwd *) injection Hs as <- <-. by exists m.
   - (* set_cwd *) injection Hs as Hs. rewrite <- resolve_abs in Hs. pose proof (set_cwd_refines env m s) as Hr. unfold set_cwd_op in *.
     destruct (resolve env m s) as [p|e] eqn:E; [|simplify_eq; by exists m]. specialize (Hr p HW HK eq_refl).
@@ -126,16 +217,13 @@ Proof.
   - (* mkdir_m *) injection Hs as Hs. rewrite <- resolve_abs in Hs. destruct (resolve env m s) as [p|e]; [|simplify_eq; by exists m].
     pose proof (mkdir_p_refines m p (Some mode) HW HK) as Hr. destruct (mkdir_m_abs m p (Some mode)) as [m1 r1]. destruct Hr as [Ha Hr1].
     destruct (spec_mkdirs (abs m) _ _ _ _) as [t1 rr]. cbn [fst snd] in *. subst t1 rr. injection Hs as <- <-. exists m1. split; [|done]. by destruct r1.
-  - (* write_all *) injection Hs as Hs. rewrite <- resolve_abs in Hs. pose proof (write_all_refines env m s d) as Hr.
-    destruct (resolve env m s) as [p|e] eqn:E; [|simplify_eq; exists m; unfold write_all_op; by rewrite E].
-    specialize (Hr p HW HK eq_refl). destruct (write_all_op env m s d) as [m1 r1]. destruct Hr as [Ha Hr1].
-    destruct (spec_write_all (abs m) p _ _ _ d) as [t1 rr]. cbn [fst snd] in *. subst t1 rr. injection Hs as <- <-. exists m1. split; [|done]. by destruct r1.
-  - (* append_all *) injection Hs as Hs. rewrite <- resolve_abs in Hs. pose proof (append_all_refines env m s d) as Hr.
-    destruct (resolve env m s) as [p|e] eqn:E; [|simplify_eq; exists m; unfold append_all_op; by rewrite E].
-    specialize (Hr p HW HK eq_refl). destruct (append_all_op env m s d) as [m1 r1]. destruct Hr as [Ha Hr1].
-    destruct (spec_append_all (abs m) p _ _ _ d) as [t1 rr]. cbn [fst snd] in *. subst t1 rr. injection Hs as <- <-. exists m1. split; [|done]. by destruct r1.
-  - (* read_all *) injection Hs as <- <-. exists m. split; [|done]. f_equal. f_equal. rewrite <- resolve_abs.
-    pose proof (read_refines env m s) as Hr. unfold clone_file in *. destruct (resolve env m s) as [p|e]; [|done]. by rewrite (Hr p HW HK eq_refl).
+  - (* write_all *) injection Hs as Hs. by apply Hwrite.
+  - (* write_lines *) injection Hs as Hs. cbn zeta. destruct (nl_join ls) as [|c d0]; [simplify_eq; by exists m|]. by apply Hwrite.
+  - (* append_all *) injection Hs as Hs. by apply Happend.
+  - (* append_line *) injection Hs as Hs. destruct l as [|c l0]; [simplify_eq; by exists m|]. by apply Happend.
+  - (* append_lines *) injection Hs as Hs. cbn zeta. destruct (nl_join ls) as [|c d0]; [simplify_eq; by exists m|]. by apply Happend.
+  - (* read_all *) injection Hs as <- <-. exists m. split; [|done]. by rewrite Hread.
+  - (* read_lines *) injection Hs as <- <-. exists m. split; [|done]. by rewrite Hread.
   - (* remove *) injection Hs as Hs. rewrite <- resolve_abs in Hs. pose proof (remove_refines env m s) as Hr.
     destruct (resolve env m s) as [p|e] eqn:E; [|simplify_eq; exists m; unfold remove_op; by rewrite E].
     specialize (Hr p HW HK eq_refl). destruct (remove_op env m s) as [m1 r1]. destruct Hr as [Ha Hr1].
@@ -155,6 +243,10 @@ Proof.
     destruct (if bool_decide (is_Some (m_ents m !! lp)) then _ else _) as [m1 r1]. destruct Hr as [Ha Hr1].
     destruct (spec_symlink (abs m) lp tp _ _ _ _) as [t1 rr]. cbn [fst snd] in *. subst t1 rr. injection Hs as <- <-.
     exists m1. split; [|done]. by destruct r1.
+  - (* readlink *) injection Hs as <- <-. exists m. split; [|done]. f_equal. f_equal. apply query_entry_node.
+    intros e d. unfold is_link_node, node_of, kind_of_entry. cbn. destruct (e_link e); [done|]. by destruct (e_dir e).
+  - (* readlink_abs *) injection Hs as <- <-. exists m. split; [|done]. f_equal. f_equal. apply query_entry_node.
+    intros e d. unfold is_link_node, node_of, kind_of_entry. cbn. destruct (e_link e); [done|]. by destruct (e_dir e).
   - (* chown *) destruct (co_follow o) eqn:Hnf; [discriminate|]. rewrite <- resolve_abs in Hs.
     destruct (resolve env m s) as [p|e] eqn:E; [|injection Hs as <- <-; exists m; unfold chown_op; by rewrite E].
     rewrite lookup_abs in Hs. destruct (m_ents m !! p) as [x|] eqn:Hx; cbn in Hs; injection Hs as <- <-.
